@@ -76,6 +76,8 @@ def factories(rng):
     add('vq-ema', lambda: VectorQuantize(dim=4, codebook_size=6, decay=0.5), 4, True, dec_vq, has_cb=True)
     add('vq-cosine', lambda: VectorQuantize(dim=4, codebook_size=6, use_cosine_sim=True, decay=0.75), 4, True, dec_vq, has_cb=True)
     add('vq-expiry', lambda: VectorQuantize(dim=3, codebook_size=8, threshold_ema_dead_code=2, decay=0.25), 3, True, dec_vq, has_cb=True)
+    add('vq-cosine-expiry', lambda: VectorQuantize(dim=3, codebook_size=6, use_cosine_sim=True, threshold_ema_dead_code=2, decay=0.5), 3, True, dec_vq, has_cb=True)
+    add('vq-cosine-heads-expiry', lambda: VectorQuantize(dim=4, codebook_size=5, heads=2, codebook_dim=2, use_cosine_sim=True, threshold_ema_dead_code=2), 4, True, None, has_cb=True)
     add('vq-heads', lambda: VectorQuantize(dim=4, codebook_size=5, heads=2, separate_codebook_per_head=True, codebook_dim=2, decay=0.5, threshold_ema_dead_code=1), 4, True, None, has_cb=True)
     add('vq-stochastic', lambda: VectorQuantize(dim=3, codebook_size=5, stochastic_sample_codes=True, sample_codebook_temp=0.5, threshold_ema_dead_code=1), 3, True, dec_vq, has_cb=True, stochastic=True)
     add('vq-kmeans', lambda: VectorQuantize(dim=3, codebook_size=4, kmeans_init=True, kmeans_iters=3, threshold_ema_dead_code=1), 3, True, dec_vq, has_cb=True, kmeans=True)
@@ -141,8 +143,10 @@ def correspond(ctx, scale):
             dist['walks'] += 1
             alphabet = ['train', 'train', 'eval', 'eval'] + (['frozen', 'frozen'] if f['freeze'] else []) + (['decode'] if f['decode'] else [])
             ops = [rng.choice(alphabet) for _ in range(rng.choice([5, 8, 12]))]
-            if rng.random() < 0.5:
-                ops = ['train', 'train'] + ops       # state-changing steps first, so that purity is tested on a "used" module
+            if wi % 2 == 1:
+                ops = ['train', 'train'] + ops
+            elif f['freeze']:
+                ops = ['frozen', 'eval'] + ops      # a fresh (never trained / just loaded) module must be left alone too       # state-changing steps first, so that purity is tested on a "used" module
             if f['kmeans'] and rng.random() < 0.5:
                 ops = [rng.choice(['eval', 'frozen'])] + ops  # the permitted exception: first call initialises
             trained = False
@@ -230,7 +234,7 @@ def correspond(ctx, scale):
         failures.append({'key': f'{m["name"]}:{m["op"]}:model-state-differs:{code}', 'what': f'{m["name"]}: the model (pure step = identity) and the implementation disagree on the state after "{m["op"]}" (component {code}); history {m["ops"]}',
                          'case': dict(m, term=cases[i][:30000])})
     return {'evaluations': evaluations, 'distinct_nontrivial': nontrivial,
-            'rule': 'random walks over {train, eval, frozen, decode} x 29 module configurations; state_dict + parameters + buffers compared bit-exactly around every pure operation, pure calls repeated; '
+            'rule': 'random walks over {train, eval, frozen, decode} x 31 module configurations; state_dict + parameters + buffers compared bit-exactly around every pure operation, pure calls repeated; '
                     'codebook-bearing pure calls also replayed through the Coq model (identity step); non-trivial = pure op executed after at least one state-changing training step',
             'samples': samples, 'failures': failures, 'distribution': dist}
 
